@@ -516,7 +516,8 @@ func probeGrowth(l int) int {
 // scaleCase: one history of the scale stream.
 //
 //	from   0: NewSize(size)   1: the zero value grown by Add   2: the zero value grown from both ends
-//	h      index of the head in the exactly full ring (how: see setHead)
+//	h      index of the head in the exactly full ring (how: see setHead; a fresh NewSize ring with
+//	       how 1 is filled directly by Push len-h, Add h)
 //	grow   0: Add regrows     1: Push regrows
 //	after  what follows the regrowth: 0 drain; 1 refill exactly, regrow from the other end, drain;
 //	       2 drain to an eighth..half by the same end, observe, refill exactly, regrow, drain
@@ -526,7 +527,10 @@ func scaleCase(w *tr.W, r *tr.Rand, size, from int, depth string, how, grow, aft
 		init = "s" + strconv.Itoa(size)
 	}
 	s := newBSess(init)
-	s.growTo(r, size, map[int]int{0: 0, 1: 0, 2: 2}[from])
+	fresh := from == 0 && how == 1 // a fresh preallocated ring: filled directly by Push len-h, Add h
+	if !fresh {
+		s.growTo(r, size, map[int]int{0: 0, 1: 0, 2: 2}[from])
+	}
 	_, _, l := s.state()
 	h := 0
 	switch depth {
@@ -552,7 +556,12 @@ func scaleCase(w *tr.W, r *tr.Rand, size, from int, depth string, how, grow, aft
 	if h < 0 {
 		h = 0
 	}
-	s.setHead(h, how)
+	if fresh {
+		s.pushes(l - h)
+		s.adds(h)
+	} else {
+		s.setHead(h, how)
+	}
 	j := l - h // offset of the element at index 0 of the old buffer (the wrap point) when h > 0
 	if obsBefore {
 		s.obs(j)
@@ -651,7 +660,7 @@ func genScale(o *tr.Opts, w *tr.W, r *tr.Rand) {
 			from = 2
 		}
 		after, how := r.Intn(3), r.Intn(2)
-		if !o.Thorough() && (size >= 1000 || size >= 500 && !r.Chance(1, 3)) {
+		if !o.Thorough() && (size >= 1000 || size >= 500 && !r.Chance(1, 5)) {
 			after = 0
 		}
 		scaleCase(w, r, size, from, allDepths[di], how, grow, after, size < 300 && r.Chance(1, 3))
@@ -728,7 +737,7 @@ func genScale(o *tr.Opts, w *tr.W, r *tr.Rand) {
 		}
 		from := c.pair >> 1
 		if !o.Thorough() && c.size > 3000 {
-			from = 0 // grown from the zero value the buffer would have 5120 slots
+			from, how = 0, 1 // the cheapest way to an exactly full ring of that size (from the zero value it would have 5120 slots)
 		}
 		scaleCase(w, r, c.size, from, c.d, how, c.pair&1, after, false)
 	}
